@@ -23,6 +23,7 @@ import (
 	"verif/internal/fw"
 	"verif/internal/hx"
 	"verif/internal/run"
+	"verif/internal/vals"
 )
 
 const prop = "C12"
@@ -44,6 +45,12 @@ const injected = `<p>{{ who | boom }}</p>`
 func program(c Case) (cat.Program, error) {
 	if c.Gen != nil {
 		return c.Gen.Program("generated"), nil
+	}
+	if c.Prog == "huge-inline" {
+		// an inline template larger than any internal buffer or read limit (about 1.5 MB)
+		return cat.Program{Name: "huge-inline", Files: map[string]string{
+			"page.vuego": `<ul>` + strings.Repeat(`<li class="r">row {{ who }}</li>`, 45000) + `</ul><i data-m="end">END</i>`,
+		}, Data: map[string]vals.V{"who": vals.Str("W")}, Feat: []string{"deep", "huge"}}, nil
 	}
 	p, ok := cat.ByName(c.Prog)
 	if !ok {
@@ -463,6 +470,10 @@ func TestProp(t *testing.T) {
 				each(Case{Prog: p.Name, Entry: e, Mode: "procfail", K: k})
 			}
 		}
+	}
+	for _, e := range cat.Entries {
+		each(Case{Prog: "huge-inline", Entry: e, Mode: "ref"})
+		each(Case{Prog: "huge-inline", Entry: e, Mode: "failat", K: 1_200_000})
 	}
 	if ok {
 		rec.Exhaustive(fmt.Sprintf("every catalogue program x Template entry point x {reference, cancelled context, expired deadline, context cancelled during evaluation, rejecting node processor (pre/post, first/last element), injected failure in every file at start/end, writer failing at every byte offset 0..len, every single write call failing once, size-limited writers} (%d cases)", i))
